@@ -644,6 +644,17 @@ class Interp:
                         r = r * a.real()
                     return SNum(z3.simplify(1 / r), "float")
             return SNum(upow(a.real(), b.real()), "float")
+        if isinstance(op, (ast.BitAnd, ast.BitOr, ast.BitXor, ast.LShift, ast.RShift)):
+            # bit operations: concrete integers only
+            ca, cb = a.concrete(), b.concrete()
+            if a.is_int and b.is_int and isinstance(ca, int) and isinstance(cb, int):
+                if isinstance(op, (ast.LShift, ast.RShift)) and cb < 0:
+                    self.raise_("ValueError", "negative shift count")
+                fn = {ast.BitAnd: lambda x, y: x & y, ast.BitOr: lambda x, y: x | y, ast.BitXor: lambda x, y: x ^ y, ast.LShift: lambda x, y: x << y, ast.RShift: lambda x, y: x >> y}[type(op)]
+                return SNum(fn(ca, cb))
+            if not (a.is_int and b.is_int):
+                self.raise_("TypeError", "unsupported operand type(s) for a bit operation")
+            raise OutOfSubset("bit operation on symbolic integers")
         raise OutOfSubset("num binop %s" % type(op).__name__)
 
     # ------------------------------------------------------------------------------------------
